@@ -314,20 +314,50 @@ def run(ctx):
     # ------------------------------------------------------------ routing in sample_posterior
     A = repo.cls("aspire.aspire:Aspire")
     sp = A.methods["sample_posterior"]
-    comps = [n for n in walk_no_nested(sp.node) if isinstance(n, ast.DictComp)]
-    conds = []
-    for dc in comps:
-        for gnr in dc.generators:
-            for cnd in gnr.ifs:
-                conds.append(ast.unparse(cnd))
-    ok = any("in sampler_init_kwargs" in c and "not in" not in c for c in conds) and any("not in sampler_init_kwargs" in c for c in conds)
+    from ..evalr import Evaluator as _Ev
+    evr = _Ev(repo, max_depth=0)
+    evr.run(sp, A)
+    ctor = [e for e in evr.events if e.func is sp and e.callee.endswith("Aspire.init_sampler")]
+    runs = [e for e in evr.events if e.func is sp and e.callee == "method:sample"]
+
+    def split_of(e):
+        """(source mapping, filter conditions) of the **-spread handed to a call, when it is a dict comprehension over a mapping's items"""
+        sp_ = dict(e.kwargs).get("**")
+        if sp_ is None or not (sp_[0] == "f" and sp_[1] == "dictcomp" and len(sp_[2]) == 2):
+            return None, ()
+        body, gen = sp_[2]
+        src_, conds_ = gen[1][0], gen[1][1][1]
+        el = ("f", "elem", (src_,), ())
+        if body != ("t", (("s", el, T.const(0)), ("s", el, T.const(1)))):
+            return None, ()
+        return src_, conds_
+    ok = False
+    why = "the keyword arguments handed to the sampler constructor / to sample() are not complementary selections of the caller's keyword arguments"
+    if len(ctor) == 1 and len(runs) == 1:
+        s1, c1 = split_of(ctor[0])
+        s2, c2 = split_of(runs[0])
+        if s1 is not None and s1 == s2:
+            el = ("f", "elem", (s1,), ())
+            key = ("s", el, T.const(0))
+            sigs = [x for c in c1 for x in T.subterms(c) if x[0] == "in" and x[1] == key]
+            if len(sigs) == 1:
+                member = sigs[0]
+                not_self = ("cmp", "!=", *sorted((key, T.K("self")), key=repr))
+                is_self = ("cmp", "==", *sorted((key, T.K("self")), key=repr))
+                want1 = {frozenset([member, not_self]), frozenset([member])}
+                want2 = {frozenset([("not", member)]), frozenset([("or", (("not", member), is_self))]), frozenset([("or", (is_self, ("not", member)))])}
+                f1 = frozenset(x for c in c1 for x in (c[1] if c[0] == "and" else [c]))
+                f2 = frozenset(c2)
+                ok = f1 in want1 and f2 in want2 and any(x[0] == "f" and "signature" in x[1] for x in T.subterms(member[2]))
+                why = f"constructor gets the entries with {[T.show(c)[:80] for c in c1]}, sample() those with {[T.show(c)[:80] for c in c2]}"
     ctx.decide(ok, "C20.route", sp.ident, loc_of(sp), "keyword arguments are split between the sampler constructor and sample() by the constructor's signature",
-               f"argument routing conditions are {conds}")
-    fwd = any(isinstance(n, ast.Call) and isinstance(n.func, ast.Attribute) and n.func.attr == "init_sampler" and any(k.arg is None and isinstance(k.value, ast.Name) and k.value.id == "sampler_kwargs" for k in n.keywords)
-              for n in walk_no_nested(sp.node))
-    ctx.decide(fwd, "C20.route", sp.ident, loc_of(sp), "constructor arguments reach init_sampler", "constructor arguments are not forwarded to init_sampler", disc="init")
+               why + ": a random source given to sample_posterior does not reach the place that uses it")
     isam = A.methods["init_sampler"]
-    fwd2 = any(isinstance(n, ast.Call) and isinstance(n.func, ast.Name) and n.func.id == "SamplerClass" and any(k.arg is None for k in n.keywords) for n in walk_no_nested(isam.node))
+    evi = _Ev(repo, max_depth=0)
+    evi.run(isam, A)
+    made = [e for e in evi.events if e.func is isam and e.callee.startswith("call:") and "get_sampler_class" in e.callee]
+    kwv = T.atom("**" + isam.node.args.kwarg.arg) if isam.node.args.kwarg else None
+    fwd2 = bool(made) and kwv is not None and all(dict(e.kwargs).get("**") == kwv for e in made)
     ctx.decide(fwd2, "C20.route", isam.ident, loc_of(isam), "init_sampler hands the extra keyword arguments to the sampler constructor", "init_sampler drops the extra keyword arguments", disc="ctor")
     # resampling uses the sampler's generator
     sample = smc.methods["sample"]
